@@ -121,6 +121,23 @@ def noise_num(x):
     return int(float(x) * 9007199254740992.0)
 
 
+def relayout(a, mode):
+    """the same values in a different memory layout (results may only depend on the values):
+    0 = as built, 1 = Fortran order, 2 = transposed view of a C array (2-D), 3 = strided view of a wider array"""
+    import numpy as np
+    if a is None or getattr(a, "ndim", 0) < 2 or mode % 4 == 0:
+        return a
+    mode %= 4
+    if mode == 1:
+        return np.asfortranarray(a)
+    if mode == 2:
+        return np.ascontiguousarray(a.T).T
+    wide = np.empty(a.shape[:-1] + (2 * a.shape[-1],), dtype=a.dtype)
+    wide[..., ::2] = a
+    wide[..., 1::2] = a[..., ::-1]
+    return wide[..., ::2]
+
+
 # ----------------------------------------------------------------------------
 # per-case timeout helper (used inside worker processes)
 # ----------------------------------------------------------------------------
